@@ -289,10 +289,27 @@ an<ConfigItem> ConvertFromYaml(const YAML::Node& node,
   return nullptr;
 }
 
+// A literal block is written without indentation or chomping indicator, so it
+// reads back as the same text only if the text ends in exactly one line break,
+// its first non-empty line does not start with a space, and it has no control
+// characters other than LF and TAB (a CR would be taken for a line break, NUL
+// and EOT confuse the reader). Any other text needs escapes.
+static bool IsLiteralBlockSafe(const string& str_value) {
+  size_t n = str_value.length();
+  if (n < 2 || str_value[n - 1] != '\n' || str_value[n - 2] == '\n')
+    return false;
+  for (unsigned char ch : str_value) {
+    if (ch < 0x20 && ch != '\n' && ch != '\t')
+      return false;
+  }
+  return str_value[str_value.find_first_not_of('\n')] != ' ';
+}
+
 void EmitScalar(const string& str_value, YAML::Emitter* emitter) {
-  if (str_value.find_first_of("\r\n") != string::npos) {
+  if (IsLiteralBlockSafe(str_value)) {
     *emitter << YAML::Literal;
-  } else if (!std::all_of(str_value.cbegin(), str_value.cend(), [](auto ch) {
+  } else if (str_value == "..." ||  // a document end marker when left plain
+             !std::all_of(str_value.cbegin(), str_value.cend(), [](auto ch) {
                return std::isalnum(ch) || ch == '_' || ch == '.';
              })) {
     *emitter << YAML::DoubleQuoted;
